@@ -256,8 +256,14 @@ def gen_facts(treehash, config):
                 subprocess.run([sys.executable, os.path.join(corpus, 'gen_random.py'), str(seed), '60', os.path.join(corpus, 'src', 'random_defs.rs')], check=True)
                 with open(os.path.join(corpus, 'src', 'lib.rs'), 'a') as f:
                     f.write('pub mod random_defs;\n')
+            # `debug` makes the derive print leaves, reference automaton, graph and root while it expands (lib/autlib.py)
+            feats = list(feats) + ['debug']
             cfeat = ['--features', ','.join(feats)] if feats else []
             jobs.append(('corpus', corpus, ['cargo', '+nightly', 'rustc', '--lib', '--offline'] + cfeat))
+            if full:
+                # the same corpus without `debug`: rule G21 compares the generated code token by token
+                plain = [x for x in feats if x != 'debug']
+                jobs.append(('nodebug-corpus', corpus, ['cargo', '+nightly', 'rustc', '--lib', '--offline'] + (['--features', ','.join(plain)] if plain else [])))
             tests = repo_test_targets()
             if which == 'quick':
                 tests = [t for t in tests if t in QUICK_TESTS]
@@ -275,6 +281,8 @@ def gen_facts(treehash, config):
                 with open(exp, 'w') as f:
                     r = subprocess.run(cmd + ['--', '-Zunpretty=expanded'], cwd=cwd, env=env, stdout=f, stderr=subprocess.PIPE, text=True)
                 failed = r.returncode != 0
+                with open(os.path.join(out, label + '.debug.txt'), 'w') as f:
+                    f.write(r.stderr)
                 if failed:
                     # a definition the derive rejects expands to compile_error!: rustc still prints the expansion and
                     # then fails.  Keep the expansion (rejected definitions are reported by the rules); anything
